@@ -1026,6 +1026,14 @@ class Emitter:
         base = kids(me)[0]
         bti = self.tm.info(qtype(base))
         sb = strip_all(base)
+        if self.opts.get('streams') and name == 'precision' and len(args) == 1:
+            while sb.get('kind') in ('ImplicitCastExpr', 'ParenExpr') and kids(sb):
+                sb = strip_all(kids(sb)[0])
+        if self.opts.get('streams') and name == 'precision' and len(args) == 1 and self.tm.info(qtype(sb))['ctype'] in ('vp_ostream', 'vp_ofstream'):
+            # G13: out.precision(p) (a std::ios_base member reached through a derived-to-base cast) changes the sticky precision only,
+            # NOT the notation - exactly like << std::setprecision(p)
+            self.fire('G13')
+            return '((void)vp_os_precision(&(%s), %s))' % (self.emit(sb), self.emit(args[0]))
         if bti['ptr'] or me.get('isArrow'):
             if sb['kind'] == 'CXXThisExpr':
                 obj = '(*%s)' % self.self_ptr
